@@ -1514,7 +1514,7 @@ class Connection(object):
         if not keyspace or keyspace == self.keyspace:
             return
 
-        query = QueryMessage(query='USE "%s"' % (keyspace,),
+        query = QueryMessage(query='USE "%s"' % (keyspace.replace('"', '""'),),
                              consistency_level=ConsistencyLevel.ONE)
         try:
             result = self.wait_for_response(query)
@@ -1568,7 +1568,7 @@ class Connection(object):
             callback(self, None)
             return
 
-        query = QueryMessage(query='USE "%s"' % (keyspace,),
+        query = QueryMessage(query='USE "%s"' % (keyspace.replace('"', '""'),),
                              consistency_level=ConsistencyLevel.ONE)
 
         def process_result(result):
